@@ -13,7 +13,7 @@ import (
 
 func init() {
 	register("C09", "faults", &PartDef{
-		Rule:  "writer workloads {W1 F W1 F W1 F A C; W1 F W1 F W1 C; W2 F W1 A W1 F W1 C; W1 F A W1 F A C; W65281 C (two real blocks)} x wc 1..3 x fault index k=1..K (K = number of underlying Write calls of the fault-free run, found by a counting run) x mode {error, error after half the bytes} x {persistent, one-shot}; reader workloads (see reader rule) x rd x cache x fault index over underlying Read and Seek calls. Each cell: all schedules up to the preemption bound (quick 2, thorough 3) with the faulty device call containing scheduling points. Oracle: no deadlock/livelock (every API call incl. Close returns), no goroutine left after Close, no panic; writer: Close reports the error, once reported every later call reports it, device content (before the torn write) is whole blocks decoding to a prefix, nothing is delivered after a failed write; reader: bytes returned equal the flat model at their position, io.EOF only at the true end. Non-trivial: cells in which the fault was actually hit.",
+		Rule:  "writer workloads {W1 F W1 F W1 F A C; W1 F W1 F W1 C; W2 F W1 A W1 F W1 C; W1 F A W1 F A C; W65281 C (two real blocks)} x wc 1..3 x fault index k=1..K (K = number of underlying Write calls of the fault-free run, found by a counting run) x mode {error, error after half the bytes} x {persistent, one-shot}; reader workloads {Read(all); Read(2) Seek(b0) Read(2) Seek(b2) Read(all); Seek(b2) Seek(b1) Seek(b0) Read(1); Seek(b2) Seek(b2) Read(all); Read(1) Seek(b0,1) Seek(b0,1) Read(2)} then Close on blocks [3 1 2]+EOF over a device doing 64-byte short reads, x {rd 1,2,3 without cache; rd 1 with LRU(2)} x fault index k=1..K+1 over the underlying Read calls (error / error after half the bytes; persistent / one-shot) and over the Seek calls (K from a fault-free counting run). Each cell: all schedules up to the preemption bound (quick 2, thorough 3) with the faulty device call containing scheduling points. Oracle: no deadlock/livelock (every API call incl. Close returns), no goroutine left after Close, no panic; writer: Close reports the error, once reported every later call reports it, device content (before the torn write) is whole blocks decoding to a prefix, nothing is delivered after a failed write; reader: bytes returned equal the flat model at their position, io.EOF only at the true end. Non-trivial: cells in which the fault was actually hit.",
 		Gen:   c09gen,
 		Build: c09build,
 	})
